@@ -485,8 +485,15 @@ def _main(ctx, args):
 
     # 1. regenerate the generated model part from the current source
     gen_changed = False
+    gen_crash = None
     if hasattr(mod, "gen_tables"):
-        for rel, content in mod.gen_tables().items():
+        try:
+            tables = mod.gen_tables()
+        except Infra:
+            raise
+        except Exception as e:      # noqa: BLE001 — the probe of the checked code itself raises: a broken obligation, not a traceback
+            tables, gen_crash = {}, f"gen_tables() raised on the checked source: {type(e).__name__}: {str(e)[:300]}"
+        for rel, content in tables.items():
             gen_changed |= write_if_changed(os.path.join(LEAN, rel), content)
     # 1b. functions translated from the current source (harness/xlate_registry.py, harness/py2lean.py)
     from . import xlate_registry as XR
@@ -508,6 +515,8 @@ def _main(ctx, args):
             build_broken = out[-3000:]
         else:
             raise Infra("lake build failed:\n" + out[-3000:])
+    if gen_crash and not build_broken:
+        build_broken = gen_crash
     if xl and not xl_broken:
         # the generated definitions and the equivalence theorems `generated = model` (a failure here is a broken tie)
         ok2, out2 = lake_build(list(xl["lean_modules"]))
